@@ -50,7 +50,7 @@ def shards(tier):
 
 def required_counters(tier):
     return {
-        "question_axes.later_check_fails_after_binding": 200,
+        "question_axes.later_check_fails_after_binding": 200, "unknown_size.bound_then_concrete_size_checked": 50,
         "fail.with_tentative": 1000,
         "fail.array": 500,
         "fail.pytree": 300,
@@ -642,7 +642,31 @@ def scen_question_axes(rec, rng, single, variadic, state, args):
     judge(rec, desc, lambda: isinstance(t2, second), [], [], [], {"?m"}, "pytree")
 
 
+def scen_unknown_size(rec, rng, single, variadic, state, args):
+    """an axis whose size is not known (`None`: a tensor traced with an unknown dimension, a lazy array) is bound like
+    any other value: a later concrete size is a mismatch that binds nothing, and the first check still passes"""
+    import typing
+
+    import jaxtyping
+
+    nm = rng.choice([n for n in NAMES5 if n not in single] or ["zq"])
+    other = rng.choice((2, 3, 5))
+    first = jaxtyping.Shaped[typing.Any, f"{nm} {other}"]
+    unknown = real.Duck((None, other), "float32")
+    if real.check(unknown, first) != "ok":
+        rec.open_corner("unknown-size-axis-not-accepted")
+        return
+    concrete = real.Duck((rng.choice((1, 4, 5)),), "float32")
+    desc = {"family": "unknown-size", "state": state, "axis": nm, "concrete": list(concrete.shape)}
+    rec.count("unknown_size.bound_then_concrete_size_checked")
+    judge(rec, desc, lambda: isinstance(concrete, jaxtyping.Shaped[typing.Any, nm]), [], [], [], (), "array")
+    again = real.check(unknown, first)
+    if again != "ok":
+        rec.violation("idempotence", desc, f"the check that bound {nm}=None passed; after a failing check of the same axis against a concrete size it answers {again}", mechanism="repeat-fails-after-unknown-size")
+
+
 SCENARIOS = (
+    (scen_unknown_size, 3),
     (scen_question_axes, 8),
     (scen_array, 40),
     (scen_array_raise, 10),
